@@ -452,6 +452,21 @@ pub fn directed() -> Vec<Trace> {
             vec![Step::Call(Op::SetPref("NavMode".into(), mode.to_string())), set(10), cmd("ZoomIn"), cmd("ZoomIn"), cmd("MoveNext"), cmd("MoveCellDown"), cmd("ReadCurrent"), cmd("WhereAmI"), cmd("MoveLineEnd"), cmd("ZoomOutAll"), cmd("MoveLastLocation"), set(30), cmd("ZoomInAll"), cmd("MoveNext"), cmd("MovePrevious"), cmd("MoveLastLocation")],
         ));
     }
+    // every key with every combination of modifiers, from inside a table cell that has neighbours in all directions
+    // (pool 54 is a 3x2 table; the second row's cells have a row above and below) and from a plain token
+    for mode in pools::NAV_MODES {
+        for (label, expr, ids) in [("table", 54usize, vec![14usize, 16, 12]), ("plain", 3usize, vec![3usize, 5])] {
+            let mut steps = vec![Step::Call(Op::SetPref("NavMode".into(), mode.to_string())), set(expr)];
+            for key in pools::KEYS {
+                for m in 0..16u8 {
+                    // back to a known place first (ids by position in the returned MathML; a miss is just an error)
+                    steps.push(Step::Call(Op::SetNavNode(IdRef::Nth(ids[(m as usize) % ids.len()]), 0)));
+                    steps.push(Step::Call(Op::Key { key: *key, shift: m & 1 != 0, ctrl: m & 2 != 0, alt: m & 4 != 0, meta: m & 8 != 0 }));
+                }
+            }
+            v.push(mk(&format!("all-keys-all-modifiers-{}-{}", label, mode), steps));
+        }
+    }
     v.push(mk("failed-set-mathml-keeps-expression", vec![set(8), cmd("ZoomIn"), cmd("SetPlacemarker1"), Step::Call(Op::SetMathml(ExprRef::Bad(2))), cmd("MoveNext"), cmd("MoveTo1"), cmd("ReadCurrent")]));
     v.push(mk("set-navigation-node", vec![set(21), Step::Call(Op::SetNavNode(IdRef::Lit("b".into()), 0)), cmd("MovePrevious"), cmd("MoveLastLocation"), Step::Call(Op::SetNavNode(IdRef::Lit("r".into()), 3)), cmd("ReadCurrent"), Step::Call(Op::SetNavNode(IdRef::Stale(0), 0))]));
     v
